@@ -251,10 +251,17 @@ Qed.
 Lemma txinv_init c : txinv (init_tx c).
 Proof. constructor; cbn; auto; discriminate. Qed.
 
+Lemma txinv_init_on c : txinv (init_tx_on c).
+Proof. constructor; cbn; auto; discriminate. Qed.
+
+(** initial states: flag = false, or flag = true with NO wake-up token (RoleTxOn) - the flag is
+    read before the first select in both (pre_read T0) *)
 Lemma Invf_init cfg : Invf (th (init cfg)).
 Proof.
   split; intros t x; cbn; destruct (cfg t); cbn; intros H; inv H.
   - apply txinv_init.
+  - apply txinv_init_on.
+  - left. reflexivity.
   - left. reflexivity.
 Qed.
 
